@@ -28,3 +28,13 @@ POOLFILES=$(cd "$REPO" && grep -rl --include='*.go' 'sync\.Pool' . 2>/dev/null |
   'credentials.go::.' \
   'internal/martian/header/via_modifier.go::.' \
   'internal/martian/mitm/mitm.go::c\.certs\.(Get|Add)\(|CreateCertificate\(|append\(|copy\('
+
+# Config.Proxy of the h2 relay dials its origin with tls.Dial (real network): the call is redirected to the seam
+# verifTLSDial (inpkg/internal/martian/h2/dial.go: tls.Dial unless a harness set VerifTLSDial), so that the real entry
+# point - connection preface, wiring of the two relays - runs on the simulated network. Skipped when the call is absent.
+f=internal/martian/h2/h2.go
+if [ -f "$REPO/$f" ] && grep -q 'tls\.Dial(' "$REPO/$f"; then
+  mkdir -p "$OUT/$(dirname $f)"
+  [ -f "$OUT/$f" ] || cp "$REPO/$f" "$OUT/$f"
+  sed -i 's/\btls\.Dial(/verifTLSDial(/g' "$OUT/$f"
+fi
